@@ -70,3 +70,12 @@ impl Rng {
         self.below(den) < num
     }
 }
+
+/// current-thread tokio runtime with paused (virtual) time
+pub fn paused_rt() -> tokio::runtime::Runtime {
+    tokio::runtime::Builder::new_current_thread()
+        .enable_time()
+        .start_paused(true)
+        .build()
+        .unwrap()
+}
